@@ -818,6 +818,10 @@ pub fn c20_round_robin_seq(nb: usize, calls: usize, desc: serde_json::Value) -> 
     let rr2 = rr.clone();
     for i in 0..calls {
         let s = if i % 3 == 2 { &rr2 } else { &rr };
+        if i % 5 == 4 {
+            // a call future that is created and dropped without ever being polled is not a call
+            drop(s.call(context::current(), i as u64));
+        }
         let r = catch_unwind(AssertUnwindSafe(|| s.call(context::current(), i as u64).now_or_never()));
         match r {
             Ok(Some(Ok(_))) => {}
@@ -840,6 +844,60 @@ pub fn c20_round_robin_seq(nb: usize, calls: usize, desc: serde_json::Value) -> 
     out.cell(format!("C20.rr.seq.backends{}", nb.min(17)));
     out.trace = vec![format!("round-robin sequential: {nb} backends, {calls} calls, counts {:?}", counts.iter().map(|c| c.load(Ordering::SeqCst)).collect::<Vec<_>>())];
     out.sig = mix(nb as u64, calls as u64);
+    out.nontrivial("C20");
+    out
+}
+
+/// `Retry` over `RoundRobin` (the composition of examples/tracing.rs): every attempt is a call on
+/// the round-robin stub, so attempts must be spread evenly too; and call futures that are created
+/// but never polled are not calls.
+pub struct ArcBackend(Backend);
+impl Stub for ArcBackend {
+    type Req = Arc<u64>;
+    type Resp = usize;
+    async fn call(&self, ctx: context::Context, request: Arc<u64>) -> Result<usize, RpcError> {
+        self.0.call(ctx, *request).await
+    }
+}
+pub fn c20_retry_over_round_robin(nb: usize, calls: usize, attempts_of: &[u32], unpolled_every: usize, desc: serde_json::Value) -> Outcome {
+    let mut out = Outcome::default();
+    out.desc = desc;
+    let (bs, counts, _) = backends(nb, false);
+    let rr = RoundRobin::new(bs.into_iter().map(ArcBackend).collect());
+    let want = Rc::new(std::cell::Cell::new(1u32));
+    let w2 = want.clone();
+    let retry = Retry::new(rr, move |_r: &Result<usize, RpcError>, attempt: u32| attempt < w2.get());
+    let mut expected_total = 0u64;
+    for i in 0..calls {
+        if unpolled_every > 0 && i % unpolled_every == unpolled_every - 1 {
+            // created, never polled, dropped: not a call
+            drop(retry.call(context::current(), i as u64));
+        }
+        let a = attempts_of[i % attempts_of.len()].max(1);
+        want.set(a);
+        expected_total += a as u64;
+        let r = catch_unwind(AssertUnwindSafe(|| retry.call(context::current(), i as u64).now_or_never()));
+        if !matches!(r, Ok(Some(Ok(_)))) {
+            out.viol("C20", "round-robin-call-failed", format!("call {i} through Retry<RoundRobin> over {nb} backends did not complete with Ok"));
+            return out;
+        }
+        let (mn, mx) = spread(&counts);
+        if mx - mn > 1 {
+            out.viol("C20", "round-robin-unbalanced-under-retry", format!("after {} calls ({expected_total} attempts) through Retry<RoundRobin> over {nb} backends the per-backend counts differ by {} (min {mn}, max {mx}); attempts per call {:?}, an unpolled call future every {unpolled_every}", i + 1, mx - mn, attempts_of));
+            break;
+        }
+    }
+    let total: u64 = counts.iter().map(|c| c.load(Ordering::SeqCst)).sum();
+    if total != expected_total && out.viols.is_empty() {
+        out.viol("C20", "retry-attempt-count", format!("{expected_total} attempts were due, the backends saw {total}"));
+    }
+    out.count("round_robin_calls", total);
+    out.cell(format!("C20.retry-over-rr.backends{}", nb.min(17)));
+    if unpolled_every > 0 {
+        out.cell("C20.rr.unpolled-call-futures");
+    }
+    out.trace = vec![format!("Retry<RoundRobin>: {nb} backends, {calls} calls, attempts {:?}, counts {:?}", attempts_of, counts.iter().map(|c| c.load(Ordering::SeqCst)).collect::<Vec<_>>())];
+    out.sig = mix(mix(nb as u64, calls as u64), attempts_of.iter().fold(unpolled_every as u64, |a, b| a * 7 + *b as u64) ^ 0x4E7);
     out.nontrivial("C20");
     out
 }
